@@ -279,7 +279,11 @@ let judge op0 args got =
             | Some w -> Some w
             | None ->
                 (* the series / powering code ran: the value-level as-is model *)
-                if Zar.sign p > 0 && Zar.lt p (zi 1500) then
+                (* the scaling of ln by 2^s is carried at a precision of |log_B 2^s| digits unless B = 2 and the
+                   argument is not shifted by 1 + x: hopeless here (the digit count of the extraction is quadratic) *)
+                let heavy = (op = "ln_1p" || ((op = "ln" || op = "powf") && not (Zar.equal b (zi 2)))) &&
+                            Zar.sign s <> 0 && abs_float (alog2 b s e) > 3000.0 in
+                if Zar.sign p > 0 && Zar.lt p (zi 1500) && not heavy then
                   (match with_budget 2.0 (fun () -> asis_answer op b m p s e a2 a3) with
                    | Some t -> Some (if fbig then (match split_ws t with [ x; y; _ ] -> x ^ " " ^ y ^ " NoFlag" | _ -> t) else t)
                    | None -> None)
